@@ -712,8 +712,17 @@ ORACLES["checksum_helpers"] = check_checksum_helpers
 SYNC = b"\x25\xeb"
 
 JUNK_LENGTHS = [0, 1, 2, 3, 4, 5, 6, 7, 8, 9, 10, 15, 16, 17, 23, 24, 25, 31, 32, 33, 40] + list(range(0, 41)) + \
-    [63, 64, 65, 127, 128, 129, 255, 256, 257, 511, 512, 513, 1023, 1024, 1025, 1026, 1538, 2051] + \
-    [2047, 2048, 2049, 4094, 4095, 4096, 4097, 4098, 8191, 8192, 8193, 8194, 16383, 16384, 16385]   # either side of block sizes
+    [63, 64, 65, 127, 128, 129, 255, 256, 257, 511, 512, 513, 1023, 1024, 1025, 1026, 1538, 2051]
+# either side of block sizes a reader might scan in; drawn rarely (the Lean model of the resynchronisation is quadratic
+# in the junk length, so a run holds a bounded number of these: see `junk_length`)
+JUNK_BIG = [2047, 2048, 2049, 4094, 4095, 4096, 4097, 4098, 8191, 8192, 8193, 8194, 16383, 16384, 16385]
+_big_budget = {"left": 0}
+
+def junk_length(rng):
+    if _big_budget["left"] > 0 and rng.random() < 0.08:
+        _big_budget["left"] -= 1
+        return rng.choice(JUNK_BIG)
+    return rng.choice(JUNK_LENGTHS)
 
 def junk(rng, n, tail25=False):
     """n bytes that do not contain the sync pattern 25 EB (optionally ending in 0x25); 0x25 not followed
@@ -736,7 +745,7 @@ def file_items(rng, n_pkts=None, with_junk=True):
     items = []
     def j():
         if with_junk and rng.random() < 0.6:
-            b = junk(rng, rng.choice(JUNK_LENGTHS), tail25=rng.random() < 0.4)
+            b = junk(rng, junk_length(rng), tail25=rng.random() < 0.4)
             if b:
                 items.append(("junk", b))
     j()
@@ -784,6 +793,7 @@ def item_bytes(items):
 def file_lines(ctx):
     rng = ctx.rng
     L = []
+    _big_budget["left"] = 6              # the same in both tiers: these lines also run on the (quadratic) Lean model
     # write sessions, then read everything / step by step
     for i in range(ctx.scale(60, 2000)):
         items = file_items(rng)
@@ -980,6 +990,7 @@ def check_file_big(args):
 def oracles_C12(ctx, hints):
     fails, n = [], 0
     rng = ctx.rng
+    _big_budget["left"] = ctx.scale(40, 600)      # implementation only: cheap
     for nbytes in (65536, 524288 - 24, 524288, 1 << 20) + ((16 << 20,) if ctx.tier == "thorough" else ()):
         args = {"n": nbytes, "raw": nbytes % 3 == 0}
         n += 1
